@@ -56,6 +56,8 @@ impl<T> BlockNode<T> {
     fn set(&self, index: usize, v: T) {
         unsafe {
             let data = self.data.get_unchecked(index & BLOCK_MASK);
+            #[cfg(may_verif)]
+            crate::verif::point("slot.write", data as *const _ as usize, index as u64);
             data.value.get().write(MaybeUninit::new(v));
         }
         // make sure the data is stored before the index is updated
